@@ -24,6 +24,129 @@ type srvCase struct {
 	Note string   `json:"note,omitempty"`
 	Sent int      `json:"sent"`
 	Viol []string `json:"viol,omitempty"`
+	// Multi marks a scenario with several concurrent streams on one server with session caching (judged by the harness alone)
+	Multi string `json:"multi,omitempty"`
+}
+
+// chanStream is an interactive in-memory stream: the test sends one request at a time and reads the response.
+type chanStream struct {
+	ctx  context.Context
+	in   chan *pb.SessionRequest
+	out  chan *pb.SessionResponse
+	done chan error
+}
+
+func (m *chanStream) Send(r *pb.SessionResponse) error { m.out <- r; return nil }
+func (m *chanStream) Recv() (*pb.SessionRequest, error) {
+	r, ok := <-m.in
+	if !ok {
+		return nil, io.EOF
+	}
+	return r, nil
+}
+func (m *chanStream) SetHeader(metadata.MD) error  { return nil }
+func (m *chanStream) SendHeader(metadata.MD) error { return nil }
+func (m *chanStream) SetTrailer(metadata.MD)       {}
+func (m *chanStream) Context() context.Context     { return m.ctx }
+func (m *chanStream) SendMsg(interface{}) error    { return nil }
+func (m *chanStream) RecvMsg(interface{}) error    { return nil }
+
+func openStream(app *server.AppEncryption) *chanStream {
+	st := &chanStream{ctx: context.Background(), in: make(chan *pb.SessionRequest), out: make(chan *pb.SessionResponse, 4), done: make(chan error, 1)}
+	go func() {
+		defer func() {
+			if r := recover(); r != nil {
+				st.done <- fmt.Errorf("handler panicked: %v", r)
+			}
+		}()
+		st.done <- app.Session(st)
+	}()
+	return st
+}
+
+// call sends one request and waits for its response (nil = none within 3 s)
+func (m *chanStream) call(r *pb.SessionRequest) *pb.SessionResponse {
+	select {
+	case m.in <- r:
+	case <-time.After(3 * time.Second):
+		return nil
+	}
+	select {
+	case resp := <-m.out:
+		return resp
+	case <-time.After(3 * time.Second):
+		return nil
+	}
+}
+
+func (m *chanStream) eof() error {
+	close(m.in)
+	select {
+	case err := <-m.done:
+		return err
+	case <-time.After(3 * time.Second):
+		return fmt.Errorf("stream did not end within 3 s of end-of-stream")
+	}
+}
+
+// runSrvMulti: several streams of one server with session caching (cache size 1).  Stream A stays open on partition "a" while sibling
+// streams on the same partition come and go and another partition pushes "a" out of the session cache; A must keep working.
+func runSrvMulti(variant int) *srvCase {
+	cs := &srvCase{Multi: fmt.Sprintf("siblings=%d evictions=%d", 1+variant%2, 1+variant/2%2)}
+	viol := func(f string, a ...any) { cs.Viol = append(cs.Viol, fmt.Sprintf(f, a...)) }
+	app := server.NewAppEncryption(&server.Options{ServiceName: "svc", ProductID: "prod", Metastore: "memory", KMS: "static",
+		ExpireAfter: 90 * 24 * time.Hour, CheckInterval: time.Hour, EnableSessionCaching: true, SessionCacheMaxSize: 1, SessionCacheDuration: 2 * time.Hour})
+	gs := func(id string) *pb.SessionRequest {
+		return &pb.SessionRequest{Request: &pb.SessionRequest_GetSession{GetSession: &pb.GetSession{PartitionId: id}}}
+	}
+	enc := func(p int) *pb.SessionRequest {
+		return &pb.SessionRequest{Request: &pb.SessionRequest_Encrypt{Encrypt: &pb.Encrypt{Data: srvPayload(p)}}}
+	}
+	okEnc := func(who string, r *pb.SessionResponse) *pb.DataRowRecord {
+		if r == nil || r.GetEncryptResponse() == nil {
+			viol("%s: encrypt on an established session was answered with %v", who, r)
+			return nil
+		}
+		return r.GetEncryptResponse().GetDataRowRecord()
+	}
+	a := openStream(app)
+	if r := a.call(gs("a")); r == nil || r.GetErrorResponse() != nil {
+		viol("stream A: get-session failed: %v", r)
+		return cs
+	}
+	rec1 := okEnc("stream A", a.call(enc(1)))
+	for i := 0; i <= variant%2; i++ { // sibling streams on the same partition end cleanly
+		b := openStream(app)
+		if r := b.call(gs("a")); r == nil || r.GetErrorResponse() != nil {
+			viol("sibling stream: get-session failed: %v", r)
+		}
+		okEnc("sibling stream", b.call(enc(2)))
+		if err := b.eof(); err != nil {
+			viol("sibling stream ended with %v", err)
+		}
+	}
+	for i := 0; i <= variant/2%2; i++ { // other partitions push "a" out of the session cache
+		c := openStream(app)
+		if r := c.call(gs(fmt.Sprintf("other-%d", i))); r == nil || r.GetErrorResponse() != nil {
+			viol("other stream: get-session failed: %v", r)
+		}
+		okEnc("other stream", c.call(enc(1)))
+		if err := c.eof(); err != nil {
+			viol("other stream ended with %v", err)
+		}
+	}
+	time.Sleep(150 * time.Millisecond) // let the session cache's background clean-up run
+	okEnc("stream A (still open, after sibling streams ended and its partition left the session cache)", a.call(enc(2)))
+	if rec1 != nil {
+		r := a.call(&pb.SessionRequest{Request: &pb.SessionRequest_Decrypt{Decrypt: &pb.Decrypt{DataRowRecord: rec1}}})
+		if r == nil || r.GetDecryptResponse() == nil || string(r.GetDecryptResponse().GetData()) != string(srvPayload(1)) {
+			viol("stream A (still open): decrypt of its own record was answered with %v", r)
+		}
+	}
+	if err := a.eof(); err != nil {
+		viol("stream A ended with %v", err)
+	}
+	return cs
 }
 
 type memStream struct {
@@ -191,6 +314,12 @@ func runSrv(a *args) error {
 		if err := readJSON(a.replay, &rp); err != nil {
 			return err
 		}
+		if rp.Case.Multi != "" {
+			for v := 0; v < 4; v++ {
+				out = append(out, runSrvMulti(v))
+			}
+			return gen.WriteJSON(a.out, map[string]any{"cases": out})
+		}
 		cs := &srvCase{Reqs: rp.Case.Reqs}
 		e.run(cs)
 		return gen.WriteJSON(a.out, map[string]any{"cases": []*srvCase{cs}})
@@ -215,6 +344,9 @@ func runSrv(a *args) error {
 		}
 	}
 	rec(nil)
+	for v := 0; v < 4; v++ {
+		out = append(out, runSrvMulti(v))
+	}
 	for i := 0; i < a.n; i++ {
 		n := 4 + r.Intn(12)
 		cs := &srvCase{}
